@@ -1136,8 +1136,11 @@ func assertListDelimiter(x any) (v string) {
 Delimiter returns the delimiter string value currently set
 within the receiver instance.
 */
-func (r Stack) Delimiter() string {
-	return r.stack.getListDelimiter()
+func (r Stack) Delimiter() (delim string) {
+	if r.IsInit() {
+		delim = r.stack.getListDelimiter()
+	}
+	return
 }
 
 /*
